@@ -71,7 +71,7 @@ CHECKS.update({
              'equals the dense L2/product/Lpq kernel on the expanded rows for every transform without cross-block entries (absent, diagonal, '
              'block-diagonal); the categorical AGOP equals the dense AGOP masked to the numerical and per-group blocks, which do not overlap for '
              'disjoint index groups. Tied to the code by a float64 correspondence of the real fast path, the real dense path and the compiled '
-             'model, exhaustive over all one-hot rows of small layouts.',
+             'model, exhaustive over all one-hot rows of small layouts. The row blocks of the fast paths are exact tilings over the regenerated inventory Gen.Chunks (row_blocks_are_tilings).',
         note=TB + 'Exact real arithmetic; float64 rounding absorbed by a computed per-entry allowance. No translator tie (correspondence only). '
              'Function gradients enter the AGOP model as a given matrix (gradient correctness is C04). Adaptive-bandwidth hook, batching and '
              'center_grads are not modelled; GPU/Kermac kernels out of reach.',
@@ -247,7 +247,7 @@ CHECKS.update({
              'homomorphism, row-wise batch independence (also for the mean over trees) and independence of the leaf\'s internal batch size. '
              'Tied to the code by the translator (Gen.Route) and by fitted models whose exported state is evaluated by an independent float64 '
              'reference (routing, kernel expansion of the leaf reached, mean, decoding) under a computed rounding allowance; the discrete part '
-             '(groups, order, restore) is compared exactly with the Lean stack machine, including an exact-tie family.',
+             '(groups, order, restore) is compared exactly with the Lean stack machine, including an exact-tie family. Every blocked loop of the source (RFM.predict batches, row blocks of the product kernel and of the categorical fast paths; inventory Gen.Chunks regenerated on every run) is proved an exact tiling, and an exact tiling is proved to be the row-wise map for any length and block size.',
         note=TB + 'The numeric leaf formula is tied by the correspondence only (kernel closed forms are C05, the codec C13); float32 rounding is '
              'absorbed by the allowance of DESIGN 4.3 (up to ~1e-2 for the memory-light kernel); rows within rounding distance of a threshold '
              'are excluded as the property allows. torch matmul/cdist/sort modelled, not verified.',
@@ -259,7 +259,7 @@ CHECKS.update({
              'classification, how centers are re-derived): every value predictions read (model level incl. the split temperature and the '
              'label decoder, every split node, every leaf incl. centers = X_train[train_indices]) arrives unchanged in a fresh model, for '
              'every number of trees and tree shape; the round trip can be iterated; exporting leaves the source untouched. Tied to the code by '
-             'the translator and by bit-exact predict/predict_proba comparisons of fitted models (direct and pickled state, two cycles).',
+             'the translator and by bit-exact predict/predict_proba comparisons of fitted models (direct and pickled state, two cycles). Over the regenerated attribute inventories (Gen.State: attributes assigned in the call graph of fit and read in the call graph of predict / predict_proba / get_grads vs attributes assigned by load_state_dict) every learned attribute read at prediction time is restored by a load (learned_state_read_at_prediction_is_restored).',
         note=TB + 'Values are abstract in the model (tensor contents are never inspected); the C07 invariant centers = X[train_indices] is an '
              'hypothesis of the theorem (proved for the construction in C07). Same constructor arguments assumed, as the property states.',
         technique='Lean 4 proof (finite case analysis by rfl over regenerated wiring tables + induction on trees) + bit-exact differential check',
